@@ -119,7 +119,7 @@ func (p *Program) CallerNames(callee *ssa.Function) []string {
 // StoreKind distinguishes plain stores from map mutation through a field.
 type storeRec struct {
 	Site
-	Path *Expr // canonical address expression
+	Path *Expr  // canonical address expression
 	Kind string // "store", "mapupdate", "delete"
 }
 
@@ -519,14 +519,19 @@ func (fi *FuncInfo) writeOnPaths(b *ssa.BasicBlock, idx int, until ssa.Instructi
 		}
 		return ""
 	}
+	if stopBlock == nil && idx > 0 {
+		// the scan starts after a memory read inside b: a path that re-enters b
+		// executes that read again, which refreshes the value
+		stopBlock = b
+	}
 	if b == ub && idx <= instrIndex(until) {
-		// straight-line case first
+		// straight-line part
 		if bad := scan(b, idx, instrIndex(until)); bad != "" {
 			return bad
 		}
-		// (a longer path around a loop back to the same block is covered below only if b is in a cycle not through stopBlock)
 	}
-	// forward set: blocks reachable from b's successors without expanding stopBlock or ub
+	// forward set: blocks reachable from b's successors without expanding stopBlock.
+	// `until` may execute several times (loops): a path may pass it and come back.
 	fwd := map[*ssa.BasicBlock]bool{}
 	var stack []*ssa.BasicBlock
 	push := func(from *ssa.BasicBlock) {
@@ -537,21 +542,14 @@ func (fi *FuncInfo) writeOnPaths(b *ssa.BasicBlock, idx int, until ssa.Instructi
 			}
 		}
 	}
-	if b != ub || idx > instrIndex(until) {
-		push(b)
-	} else {
-		return ""
-	}
+	push(b)
 	for len(stack) > 0 {
 		x := stack[len(stack)-1]
 		stack = stack[:len(stack)-1]
-		if x == ub {
-			continue
-		}
 		push(x)
 	}
 	if !fwd[ub] {
-		return "" // until not reachable from here without re-evaluating the gate
+		return "" // until not reachable again from here without re-evaluating the gate
 	}
 	// backward set: blocks that reach ub without passing stopBlock
 	bwd := map[*ssa.BasicBlock]bool{ub: true}
@@ -566,25 +564,70 @@ func (fi *FuncInfo) writeOnPaths(b *ssa.BasicBlock, idx int, until ssa.Instructi
 			}
 		}
 	}
-	// first block remainder
-	if bwd[b] || b == ub {
-		if bad := scan(b, idx, len(b.Instrs)); bad != "" && b != ub {
+	// is ub on a cycle (within the allowed region)? then everything in it can precede a later execution of until
+	ubCycle := false
+	for _, sc := range ub.Succs {
+		if fwdReach(sc, ub, stopBlock) {
+			ubCycle = true
+		}
+	}
+	if b != ub && bwd[b] {
+		if bad := scan(b, idx, len(b.Instrs)); bad != "" {
 			return bad
 		}
 	}
 	for _, blk := range fi.Fn.Blocks {
-		if !fwd[blk] || !bwd[blk] || blk == b {
+		if !fwd[blk] || !bwd[blk] {
+			continue
+		}
+		if blk == b && blk != ub {
+			// b reachable again through a cycle: its whole body counts
+			if bad := scan(blk, 0, len(blk.Instrs)); bad != "" {
+				return bad
+			}
 			continue
 		}
 		to := len(blk.Instrs)
-		if blk == ub {
+		if blk == ub && !ubCycle {
 			to = instrIndex(until)
+		}
+		if blk == ub && ubCycle {
+			// skip `until` itself
+			if bad := scan(blk, 0, instrIndex(until)); bad != "" {
+				return bad
+			}
+			if bad := scan(blk, instrIndex(until)+1, len(blk.Instrs)); bad != "" {
+				return bad
+			}
+			continue
 		}
 		if bad := scan(blk, 0, to); bad != "" {
 			return bad
 		}
 	}
 	return ""
+}
+
+func fwdReach(from, to, stop *ssa.BasicBlock) bool {
+	if from == stop {
+		return false
+	}
+	seen := map[*ssa.BasicBlock]bool{from: true}
+	stack := []*ssa.BasicBlock{from}
+	for len(stack) > 0 {
+		x := stack[len(stack)-1]
+		stack = stack[:len(stack)-1]
+		if x == to {
+			return true
+		}
+		for si, s := range x.Succs {
+			if !seen[s] && s != stop && FeasibleSucc(x, si) {
+				seen[s] = true
+				stack = append(stack, s)
+			}
+		}
+	}
+	return false
 }
 
 func reachBack(b *ssa.BasicBlock) map[*ssa.BasicBlock]bool {
@@ -1102,4 +1145,80 @@ func (fi *FuncInfo) MustPassFeasible(target ssa.Instruction, instrPass func(ssa.
 		}
 	}
 	return GateResult{OK: true}
+}
+
+// LoopHeaders returns blocks that are targets of back edges (natural loop headers).
+func LoopHeaders(fn *ssa.Function) []*ssa.BasicBlock {
+	var out []*ssa.BasicBlock
+	seen := map[*ssa.BasicBlock]bool{}
+	for _, b := range fn.Blocks {
+		for _, s := range b.Succs {
+			if s.Dominates(b) && !seen[s] {
+				seen[s] = true
+				out = append(out, s)
+			}
+		}
+	}
+	sort.Slice(out, func(i, j int) bool { return out[i].Index < out[j].Index })
+	return out
+}
+
+// Reachable computes the set of functions reachable from root over the call
+// graph (static + VTA edges), including closures created on the way.
+func (p *Program) Reachable(root *ssa.Function) map[*ssa.Function]bool {
+	seen := map[*ssa.Function]bool{}
+	var rec func(f *ssa.Function)
+	rec = func(f *ssa.Function) {
+		if f == nil || seen[f] {
+			return
+		}
+		seen[f] = true
+		if !p.inRepo(f) {
+			return
+		}
+		for _, b := range f.Blocks {
+			for _, in := range b.Instrs {
+				switch x := in.(type) {
+				case ssa.CallInstruction:
+					if _, isGo := in.(*ssa.Go); isGo {
+						continue // a new goroutine is a different root
+					}
+					for _, c := range p.CalleesOf(x) {
+						rec(c)
+					}
+				case *ssa.MakeClosure:
+					// closures are entered where they are called/deferred; a closure handed to `go` is skipped above,
+					// but one stored and called later must be covered: include unless only used by a Go instruction
+					onlyGo := true
+					for _, r := range *x.Referrers() {
+						if _, isGo := r.(*ssa.Go); !isGo {
+							onlyGo = false
+						}
+					}
+					if !onlyGo {
+						rec(x.Fn.(*ssa.Function))
+					}
+				}
+			}
+		}
+	}
+	rec(root)
+	return seen
+}
+
+// ValueFresh decides that the memory reads feeding value v are still current
+// when instruction `at` executes: no instruction on any path from a read to
+// `at` may write what it read. It returns the offending write, if any.
+func (fi *FuncInfo) ValueFresh(v ssa.Value, at ssa.Instruction) (bool, string) {
+	fi.P.buildStoreIdx()
+	for _, ld := range condLoads(v) {
+		li, ok := ld.(ssa.Instruction)
+		if !ok || li.Parent() != fi.Fn {
+			continue
+		}
+		if bad := fi.writeOnPaths(li.Block(), instrIndex(li)+1, at, nil, []*Expr{fi.Sym(ld)}); bad != "" {
+			return false, bad
+		}
+	}
+	return true, ""
 }
